@@ -109,6 +109,16 @@ func c23Table() map[string]c23Method {
 			c23V("attrs", func(e *c23Env) []interface{} {
 				return []interface{}{ctxOf(e), &QueryRequest{Index: "i", Query: `SetRowAttrs(f, 1, x="y")`}}
 			}),
+			// the node-to-node form of a query (one leg of a distributed query: remote flag + shard list)
+			c23V("remote-write", func(e *c23Env) []interface{} {
+				return []interface{}{ctxOf(e), &QueryRequest{Index: "i", Query: "Set(9, f=7)", Remote: true, Shards: []uint64{0}}}
+			}),
+			c23V("remote-read", func(e *c23Env) []interface{} {
+				return []interface{}{ctxOf(e), &QueryRequest{Index: "i", Query: "Row(f=1)", Remote: true, Shards: []uint64{0}}}
+			}),
+			c23V("read-options", func(e *c23Env) []interface{} {
+				return []interface{}{ctxOf(e), &QueryRequest{Index: "i", Query: "Row(f=1)", Shards: []uint64{0}, ColumnAttrs: true, ExcludeRowAttrs: true, ExcludeColumns: true}}
+			}),
 		}},
 		"Import": {c23Data, "import", []c23Variant{
 			c23V("ids", func(e *c23Env) []interface{} {
